@@ -23,14 +23,31 @@ copying and whatever its signature is), value normal forms and success dependenc
                         the inner writer is mapping_fn(take(buffer)); Drop and unwrap flush the remainder, unwrap takes
                         the inner writer afterwards (no double flush), and the remainder flush is guarded by a non-empty
                         buffer
+Deepened (second pass; each is a necessary condition of a clause, stated on effects / guards / statement-level data flow):
+  R1 eager-spawn        a spawn / join reached through the closure of a LAZY iterator adapter happens where the iterator is
+                        consumed: the position used for spawn-before-join is the eager consumer (collect, fold, ..) of that
+                        adapter; pulled by a `for` loop or a later lazy stage it is spawn, join, spawn, join
+  R3 copier-reader      what io::copy reads is the child's pipe itself (BufReader / by_ref aside), not Read::take / chain / an
+                        unknown adapter
+  R4/R5 overrides       provided io::Write methods overridden by the impls are entry points of their own (io::copy calls
+                        write_all): a TeeWrite::write_all override carries the obligations of write, anything else is UNPROVEN
+  R5 entry-points       only write / Drop::drop / unwrap (not flush, not any other public function of the module) reach a
+                        write on the inner writer
+  R5 flush-guards/<fn>  at every level of the call chain the flush is gated by nothing but: the part ends with the marker
+                        (write only), the buffer is non-empty, the inner writer is present
+  R5 mapped-verbatim    statement-level: the value taken from the buffer reaches mapping_fn, and mapping_fn's result reaches
+                        write_all, without being re-assigned, partially written or mutably borrowed on the way
+  R5 buffer-frame       nothing in the module changes the buffer field except the append in write and the take in the flush
 Not decided: scheduling and timing, kernel pipe behaviour, that io::copy delivers bytes in order.
 """
 from .lib.guards import conditions
 from .lib.paths import strip
 from .lib.value import vstr, walk, canon
-from .lib.effects import Effects
+from .lib.effects import Effects, guards_of
 from .lib.discard import result_fates, verdict
 from . import C19_helpers as H
+from .lib import iters
+import re
 
 MW = 'libherokubuildpack::write::MappedWrite::<W>::'
 SPAWN = {"crossbeam_utils::thread::Scope::<'env>::spawn", 'std::thread::scope::Scope::spawn', "std::thread::Scope::<'scope, 'env>::spawn"}
@@ -38,6 +55,12 @@ JOIN = {"crossbeam_utils::thread::ScopedJoinHandle::<'_, T>::join", "std::thread
 SCOPE = {'crossbeam_utils::thread::scope', 'std::thread::scope', 'std::thread::scoped::scope'}
 WAITS = ('std::process::Child::wait', 'std::process::Child::wait_with_output', 'std::process::Child::try_wait')
 TAKES = ('std::option::Option::<T>::take', 'std::mem::take', 'std::mem::replace')
+OPT_VIEWS = ('std::option::Option::<T>::as_mut', 'std::option::Option::<T>::as_ref', 'std::option::Option::<T>::as_deref_mut', 'std::option::Option::<T>::as_deref')
+# std readers that deliver exactly the bytes of the reader they wrap, in order: name -> index of the wrapped reader
+READ_WRAP = {'std::io::BufReader::<R>::new': 0, 'std::io::BufReader::<R>::with_capacity': 1, 'std::io::Read::by_ref': 0}
+CAPACITY_ONLY = ('reserve', 'reserve_exact', 'shrink_to_fit', 'shrink_to', 'try_reserve', 'try_reserve_exact')
+WRITE_VOCAB = {'std::io::Write::write_all': ('WRITE_ALL', 0), 'std::io::Write::write': ('WRITE_SOME', 0), 'std::io::Write::write_vectored': ('WRITE_SOME', 0),
+               'std::io::Write::write_all_vectored': ('WRITE_SOME', 0), 'std::io::Write::write_fmt': ('WRITE_SOME', 0)}
 
 
 def has_field(v, name, base=None):
@@ -95,11 +118,47 @@ def run(ctx, rep):
     stray = [e for e in teffs if e.kind in ('TSPAWN', 'TJOIN') and H.top_call(e, sc) is None]
     rep.check(len(spawns) == 2 and len(joins) == 2 and not stray, 'R1', 'sites', w(sc), '2 spawn and 2 join effects inside the scope closure',
               '%d spawn / %d join effects inside the scope closure, %d outside' % (len(spawns), len(joins), len(stray)))
+    # a spawn / join reached through the closure of a LAZY iterator adapter (`.map(|s| scope.spawn(..))`) does not happen
+    # where the adapter is called but where the iterator is consumed: an eager consumer of that adapter's result
+    # (collect, fold, for_each, ..) in the same function is the position; pulled by a `for` loop or by a later lazy stage,
+    # every element is spawned only when the loop gets to it (spawn, join, spawn, join)
+    LAZY = set(iters.LAZY_WITH_CLOSURE) | H.LAZY_MORE
+    EAGER = set(iters.CONSUME_ALL) | set(iters.CONSUME_EACH) | set(iters.COLLECTING)
+
+    def position(e):
+        """block of the scope closure in which effect e happens, None when that cannot be told"""
+        calls = [l.call for l in e.chain] + [e.call]
+        pos = H.top_call(e, sc).bb
+        for a in calls:
+            if not a.names() & LAZY:
+                continue
+            g = a.fn
+            ks = [k for k in g.calls if k.args and k.names() & EAGER
+                  and any(x[0] == 'call' and len(x) == 4 and x[3] == (g.path, a.bb) for x in walk(sl.operand(g, k.args[0])))]
+            if len(ks) != 1:
+                return None
+            if g is sc:
+                pos = ks[0].bb
+        return pos
+    lazy = [e for e in spawns + joins if position(e) is None]
+    rep.check(not lazy, 'R1', 'eager-spawn', w(sc), 'no copier is spawned or joined from inside a lazy iterator stage that is pulled later',
+              '%s: when each copier starts depends on where the iterator is consumed — pulled one element at a time, the second copier is only '
+              'spawned after the first was joined' % ', '.join(sorted({'%s reached through a lazy iterator adapter (%s)' % (e.kind[1:].lower(), H.top_call(e, sc).where()) for e in lazy})))
     for i, j in enumerate(joins):
-        jb = H.top_call(j, sc).bb
-        ok = all(sc.dominates(H.top_call(s, sc).bb, jb) and H.top_call(s, sc).bb != jb for s in spawns)
+        jb = position(j)
+        ok = jb is not None and all(position(s) is not None and sc.dominates(position(s), jb) and position(s) != jb for s in spawns)
         rep.check(ok, 'R1', 'join#%d' % i, H.top_call(j, sc).where(), 'join happens after both spawns on every path',
                   'a copier thread is joined before the other stream\'s copier is spawned: a child filling the other pipe deadlocks')
+
+    def pipe_itself(v, fld):
+        """v is the payload of the spawned child's `fld` pipe (taken out of the Child or borrowed from it), possibly inside
+        std wrappers that hand on every byte in order"""
+        v = strip(v)
+        while v[0] == 'call' and v[1] in READ_WRAP and len(v[2]) > READ_WRAP[v[1]]:
+            v = strip(v[2][READ_WRAP[v[1]]])
+        while v[0] == 'call' and v[2] and v[1] in TAKES + OPT_VIEWS:
+            v = strip(v[2][0])
+        return v[0] == 'field' and len(v) == 3 and v[2] == fld and is_child(strip(v[1]))
 
     # ---- R3: what every spawned thread computes (closure value with its captures in the terms of wc) ---------------------
     Ec = Effects(prog, sl, vocab={'std::io::copy': ('COPY', 0)})
@@ -123,6 +182,14 @@ def run(ctx, rep):
             rv, wv, _, res, s = streams[fld]
             good_w = any(is_writer(x, idx) for x in walk(wv)) and not any(is_writer(x, 3 - idx) for x in walk(wv))
             rep.check(good_w, 'R3', 'copier/' + fld, s.where(), 'io::copy(child.%s, %s writer)' % (fld, fld), 'the %s copier copies %s into %s' % (fld, vstr(rv)[:60], vstr(wv)[:60]))
+            # what is copied is the pipe itself — not a truncated / extended / filtered view of it
+            direct = pipe_itself(rv, fld)
+            if direct:
+                rep.holds('R3', 'copier-reader/' + fld, s.where(), 'the reader handed to io::copy is the child\'s %s pipe itself (buffering wrappers aside)' % fld)
+            elif any(x[0] == 'call' and x[1] in ('std::io::Read::take', 'std::io::Read::chain') for x in walk(rv)):
+                rep.violated('R3', 'copier-reader/' + fld, s.where(), 'the %s copier reads a limited / extended view of the pipe (%s): bytes beyond the limit never reach the writer' % (fld, vstr(rv)[:80]))
+            else:
+                rep.unproven('R3', 'copier-reader/' + fld, s.where(), 'the %s copier reads through an adapter that is not known to hand on every byte: %s' % (fld, vstr(rv)[:80]))
             # the thread's result is Ok only if the copy was, whatever becomes of the byte count
             ralts = H.value_alts(sl, res)
             is_copy = lambda x: x[0] == 'call' and x[1] == 'std::io::copy'
@@ -245,35 +312,58 @@ def run(ctx, rep):
     def target_of(v, fn):
         v = strip(v)
         return v[2] if v[0] == 'field' and self_of(fn)(strip(v[1])) else None
-    weffs = [e for e in H.unroll(Ew, Ew.expand(tw, 'may')) if e.kind in ('WRITE_ALL', 'WRITE_SOME')]
-    wa = [e for e in weffs if e.kind == 'WRITE_ALL']
-    targets = sorted(t for t in (target_of(e.args[0], tw) for e in wa) if t)
-    whole = all(H.is_param(e.args[1], tw, 1) for e in wa)
-    prop = all(verdict(result_fates(prog, e.call.fn, e.call)) == 'ok' for e in wa) and \
-        all(verdict(result_fates(prog, l.call.fn, l.call)) == 'ok' for e in wa for l in e.chain if (l.call.dty or '').startswith('std::result::Result<'))
-    partial = [e for e in weffs if e.kind == 'WRITE_SOME' and target_of(e.args[0], tw)]
-    rep.check(targets == ['inner_a', 'inner_b'] and whole and prop and not partial, 'R4', 'write_all-both', w(tw), 'write_all(buf) on both targets, errors propagated',
-              'tee write: targets=%s whole_slice=%s propagated=%s (write() instead of write_all() may write a prefix only)' % (targets, whole, prop))
-    talts = H.fn_alts(sl, sl, tw)
-
     def is_len_of_buf(p, fn):
         p = strip(p)
         return p[0] == 'call' and p[1].endswith('::len') and len(p[2]) == 1 and H.is_param(p[2][0], fn, 1)
-    ok = bool(talts) and all(is_len_of_buf(p, tw) for p, _ in talts)
-    rep.check(ok, 'R4', 'returns-len', w(tw), 'returns Ok(buf.len())', 'tee write does not report the whole slice as written')
 
-    def needs_both(deps):
-        got = set()
-        for dv in deps:
-            dv = strip(dv)
-            if dv[0] == 'call' and dv[1] == 'std::io::Write::write_all' and len(dv[2]) == 2 and H.is_param(dv[2][1], tw, 1):
-                got.add(target_of(dv[2][0], tw))
-        return got >= {'inner_a', 'inner_b'}
-    rep.check(bool(talts) and all(needs_both(ds) for _, ds in talts) and len(wa) == 2, 'R4', 'both-before-ok', w(tw), 'both writes precede the success return', 'a target can be skipped on a success path')
+    def tee_checks(tw, sfx, want_len):
+        """the obligations of a TeeWrite method that takes the input slice as parameter 1 (write; a write_all override)"""
+        weffs = [e for e in H.unroll(Ew, Ew.expand(tw, 'may')) if e.kind in ('WRITE_ALL', 'WRITE_SOME')]
+        wa = [e for e in weffs if e.kind == 'WRITE_ALL']
+        targets = sorted(t for t in (target_of(e.args[0], tw) for e in wa) if t)
+        whole = all(H.is_param(e.args[1], tw, 1) for e in wa)
+        prop = all(verdict(result_fates(prog, e.call.fn, e.call)) == 'ok' for e in wa) and \
+            all(verdict(result_fates(prog, l.call.fn, l.call)) == 'ok' for e in wa for l in e.chain if (l.call.dty or '').startswith('std::result::Result<'))
+        partial = [e for e in weffs if e.kind == 'WRITE_SOME' and target_of(e.args[0], tw)]
+        rep.check(targets == ['inner_a', 'inner_b'] and whole and prop and not partial, 'R4', 'write_all-both' + sfx, w(tw), 'write_all(buf) on both targets, errors propagated',
+                  'tee write: targets=%s whole_slice=%s propagated=%s (write() instead of write_all() may write a prefix only)' % (targets, whole, prop))
+        talts = H.fn_alts(sl, sl, tw)
+        if want_len:
+            ok = bool(talts) and all(is_len_of_buf(p, tw) for p, _ in talts)
+            rep.check(ok, 'R4', 'returns-len' + sfx, w(tw), 'returns Ok(buf.len())', 'tee write does not report the whole slice as written')
+
+        def needs_both(deps):
+            got = set()
+            for dv in deps:
+                dv = strip(dv)
+                if dv[0] == 'call' and dv[1] == 'std::io::Write::write_all' and len(dv[2]) == 2 and H.is_param(dv[2][1], tw, 1):
+                    got.add(target_of(dv[2][0], tw))
+            return got >= {'inner_a', 'inner_b'}
+        rep.check(bool(talts) and all(needs_both(ds) for _, ds in talts) and len(wa) == 2, 'R4', 'both-before-ok' + sfx, w(tw), 'both writes precede the success return', 'a target can be skipped on a success path')
+    tee_checks(tw, '', True)
     tf = prog.find_one(r'^<libherokubuildpack::write::TeeWrite<A, B> as std::io::Write>::flush$')
     rep.analysed(tf)
     fl = sorted(t for t in (target_of(e.args[0], tf) for e in H.unroll(Ew, Ew.expand(tf, 'may')) if e.kind == 'FLUSH') if t)
     rep.check(fl == ['inner_a', 'inner_b'], 'R4', 'flush-both', w(tf), 'flush flushes both targets', 'tee flush targets: %s' % fl)
+    # provided methods of io::Write that the impl overrides are entry points of their own (io::copy calls write_all, not
+    # write): a write_all override carries the obligations of write; anything else is not modelled
+    OVR = re.compile(r'^<libherokubuildpack::write::(TeeWrite<A, B>|MappedWrite<W>) as std::io::Write>::(\w+)$')
+    overrides = {}
+    for f in prog.fns.values():
+        m = OVR.match(f.path)
+        if m and m.group(2) not in ('write', 'flush'):
+            overrides.setdefault(m.group(1)[:3], []).append((m.group(2), f))
+    unmodelled = []
+    for name, f in sorted(overrides.get('Tee', [])):
+        rep.analysed(f)
+        if name == 'write_all' and f.argc == 2:
+            tee_checks(f, '@write_all', False)
+        else:
+            unmodelled.append(name)
+    if unmodelled:
+        rep.unproven('R4', 'overrides', w(tw), 'TeeWrite overrides io::Write::%s: callers of that method bypass the analysed write()' % ', '.join(unmodelled))
+    else:
+        rep.holds('R4', 'overrides', w(tw), 'every input-carrying io::Write method of TeeWrite is write() or a checked write_all()')
 
     # ---- R5 --------------------------------------------------------------------------------------------
     mw = prog.find_one(r'^<libherokubuildpack::write::MappedWrite<W> as std::io::Write>::write$')
@@ -292,6 +382,8 @@ def run(ctx, rep):
         if e.kind != 'WRITE_ALL' or len(e.args) < 2:
             return False
         dv = strip(e.args[1])
+        while dv[0] == 'call' and len(dv[2]) == 1 and dv[1] in H.VIEW_CALLS:      # `&v`, `v.as_slice()`, `v.as_ref()`: the same bytes
+            dv = strip(dv[2][0])
         return dv[0] == 'call' and dv[1] == 'std::ops::Fn::call' and has_field(dv[2][0], 'mapping_fn', self_of(fn)) and \
             any(x[0] == 'call' and x[1] == 'std::mem::take' and x[2] and is_field(x[2][0], fn, 'buffer') for x in walk(dv))
     iw = {f.path: inner_writes(f) for f in (mw, un) + ((dr,) if dr is not None else ())}
@@ -306,6 +398,25 @@ def run(ctx, rep):
         """v is `buffer.is_empty()` on fn's own buffer field"""
         v = strip(v)
         return v[0] == 'call' and v[1].endswith('::is_empty') and len(v[2]) == 1 and is_field(v[2][0], fn, 'buffer')
+
+    def says_nonempty(v, oc, fn):
+        """does "v evaluated to oc" say that fn's own buffer field is not empty: `!is_empty()`, `len() != 0`, `len() > 0`, `len() >= 1`"""
+        v = strip(v)
+        if nonempty_test(v, fn):
+            return oc is False
+        if v[0] == 'bin' and len(v) == 4 and isinstance(oc, bool):
+            op, a, b = v[1], strip(v[2]), strip(v[3])
+            is_len = lambda x: x[0] == 'call' and x[1].endswith('::len') and len(x[2]) == 1 and is_field(x[2][0], fn, 'buffer')
+            k = lambda x, n: x[0] == 'const' and type(x[1]) is int and x[1] == n
+            if is_len(a) and k(b, 0):
+                return (op, oc) in (('Eq', False), ('Ne', True), ('Gt', True), ('Le', False))
+            if is_len(b) and k(a, 0):
+                return (op, oc) in (('Eq', False), ('Ne', True), ('Lt', True), ('Ge', False))
+            if is_len(a) and k(b, 1):
+                return (op, oc) in (('Ge', True), ('Lt', False))
+            if is_len(b) and k(a, 1):
+                return (op, oc) in (('Le', True), ('Gt', False))
+        return False
     parts = H.partitions(sl, Ew, mw, 1, is_marker)
     appends = [c for c in mw.calls if not c.indirect and c.args and is_field(sl.operand(mw, c.args[0]), mw, 'buffer') and
                c.name.startswith('std::vec::Vec::<T, A>::') and c.name.rsplit('::', 1)[-1] in ('push', 'extend_from_slice', 'extend', 'append', 'insert', 'extend_from_within')]
@@ -328,7 +439,7 @@ def run(ctx, rep):
         cds = [cd for cd in conditions(mw, fc.bb, sl) if cd.kind == 'bool']
         test = [cd for cd in cds if any(oc is True and P.ends_with_marker(v, is_marker) for v, oc in cd.views())]
         # besides the marker test only "the buffer is not empty" may guard the flush (always true after the append)
-        rest = [cd for cd in cds if cd not in test and not any(oc is False and nonempty_test(v, mw) for v, oc in cd.views())]
+        rest = [cd for cd in cds if cd not in test and not any(says_nonempty(v, oc, mw) for v, oc in cd.views())]
         ok = ok and len(test) == 1 and not rest
         ok = ok and len(appends) == 1 and mw.dominates(appends[0].bb, fc.bb) and appends[0].bb != fc.bb
         ok = ok and all(verdict(result_fates(prog, c.fn, c)) == 'ok' for c in [l.call for l in fe.chain] + [fe.call])
@@ -358,7 +469,7 @@ def run(ctx, rep):
         good = True
         for g in (dr, un):
             for e in flushes[g.path]:
-                hit = [cd for v, oc, cd in H.guard_views(Ew, e) if oc is False and nonempty_test(v, g)]
+                hit = [cd for v, oc, cd in H.guard_views(Ew, e) if says_nonempty(v, oc, g)]
                 good = good and bool(hit)
                 where.update(cd.fn.path.split('::')[-1] for cd in hit[:1])
         if good:
@@ -366,3 +477,127 @@ def run(ctx, rep):
     rep.check(guard is not None, 'R5', 'nonempty-remainder-guard', w(flw), 'the remainder is only mapped and written when the buffer is non-empty (%s)' % guard,
               'on drop / unwrap the mapping of an EMPTY remainder is emitted: input "a\\n" through line_mapped(add_prefix("> ")) yields "> a\\n> " — the property '
               'only allows the mapping of the non-empty remainder', {'reproducer': 'line_mapped(out, add_prefix("> ")) <- "a\\n" ; drop  =>  "> a\\n> "'})
+
+    # ---- R5, deepened: who may write to the inner writer, under which conditions, and with which bytes ---------------------
+    mo = sorted(n for n, _ in overrides.get('Map', []))
+    for _, f in overrides.get('Map', []):
+        rep.analysed(f)
+    if mo:
+        rep.unproven('R5', 'overrides', w(mw), 'MappedWrite overrides io::Write::%s: callers of that method (io::copy calls write_all) bypass the analysed write()' % ', '.join(mo))
+    else:
+        rep.holds('R5', 'overrides', w(mw), 'write() is the only input-carrying io::Write method of MappedWrite')
+    in_module = lambda f: f.crate == 'libherokubuildpack' and f.path.startswith(('libherokubuildpack::write::', '<libherokubuildpack::write::'))
+    module_fns = [f for f in prog.fns.values() if in_module(f)]
+    # only write / Drop::drop / unwrap hand bytes to the inner writer: any other public function of the module that reaches a
+    # write on a MappedWrite's `inner` (flush!) emits the mapping of something that is neither a marker-terminated segment
+    # nor the final remainder
+    Ex = Effects(prog, sl, vocab=WRITE_VOCAB)
+    entries = {mw.path, un.path} | ({dr.path} if dr is not None else set())
+    strays = []
+    for f in sorted(module_fns, key=lambda f: f.path):
+        if f.kind == 'Closure' or f.path in entries:
+            continue
+        if f.vis != 'pub':
+            callers = [c.fn for c in prog.callers().get(f.path, [])]
+            if all(in_module(g) for g in callers):
+                continue        # private to the module: judged through the functions that call it
+        if any(e.kind in ('WRITE_ALL', 'WRITE_SOME') and e.args and has_field(e.args[0], 'inner') for e in Ex.expand(f, 'may')):
+            strays.append(f)
+            rep.analysed(f)
+    rep.check(not strays, 'R5', 'entry-points', w(strays[0] if strays else mw), 'only write, Drop::drop and unwrap hand bytes to the inner writer',
+              '%s also writes to the inner writer: between two write calls it emits the mapping of an incomplete segment, so the output depends on how the input was split'
+              % ', '.join(f.path.split('::')[-1] for f in strays))
+
+    # the flush runs whenever the part ends with the marker (write) / always (drop, unwrap) — except with an empty buffer or
+    # without an inner writer: no other condition gates it at any level of the call chain
+    def innerish(v, fn):
+        v = strip(v)
+        while v[0] == 'call' and v[2] and v[1] in OPT_VIEWS:
+            v = strip(v[2][0])
+        return is_field(v, fn, 'inner')
+
+    def guard_allowed(cd, views, subj, g):
+        own = cd.fn is g
+        if cd.kind == 'variant':
+            oc = set(cd.outcome or ())
+            if not oc or not oc <= {'Some'} or subj is None:
+                return g is mw and own and P is not None and cd.subject is not None and P.is_elem(cd.subject)
+            sv = strip(subj)
+            if g is mw and own and P is not None and H._is_next_cond(mw, P.loop, cd):
+                return True
+            if innerish(sv, g):
+                return True
+            if sv[0] == 'call' and sv[1] == H.OPT + 'filter' and len(sv[2]) == 2 and innerish(sv[2][0], g):
+                r, neg = sl.apply_closure(sv[2][1], (sl.mk_unwrap(sv[2][0], 1),)), False
+                while r is not None and r[0] == 'un' and r[1] == 'Not':
+                    r, neg = r[2], not neg
+                return r is not None and says_nonempty(r, not neg, g)
+            return g is mw and own and P is not None and cd.subject is not None and P.is_elem(cd.subject)
+        if cd.kind != 'bool':
+            return False
+        # a condition of the entry function itself is also read as written (the chain's substitution renames loop elements)
+        for v, oc in list(views) + (list(cd.views()) if own else []):
+            sv = strip(v)
+            if oc is True and g is mw and own and P is not None and P.ends_with_marker(v, is_marker):
+                return True
+            if says_nonempty(v, oc, g):
+                return True
+            if sv[0] == 'call' and len(sv[2]) == 1 and innerish(sv[2][0], g) and (sv[1], oc) in ((H.OPT + 'is_some', True), (H.OPT + 'is_none', False)):
+                return True
+        return False
+    for g in (mw, dr, un):
+        if g is None or not flushes.get(g.path):
+            continue
+        name = g.path.split('::')[-1]
+        extra = []
+        for e in flushes[g.path]:
+            for cd, views, subj in guards_of(Ew, e):
+                if not guard_allowed(cd, views, subj, g):
+                    v = views[0][0] if views else (subj if subj is not None else ('unknown',))
+                    extra.append('%s is %s (%s:%s)' % (vstr(v)[:70], sorted(cd.outcome) if isinstance(cd.outcome, (set, frozenset)) else cd.outcome, cd.fn.path.split('::')[-1], cd.fn.file))
+        what = 'a part that ends with the marker' if g is mw else 'the remainder'
+        if extra:
+            rep.unproven('R5', 'flush-guards/' + name, w(g), 'in %s the flush of %s is gated by a further condition (besides non-empty buffer / inner writer present): %s — '
+                         'such a segment is not emitted or is merged with the next one' % (name, what, '; '.join(sorted(set(extra)))[:200]))
+        else:
+            rep.holds('R5', 'flush-guards/' + name, w(g), 'in %s nothing but a non-empty buffer and the presence of the inner writer gates the flush of %s' % (name, what))
+
+    # what is mapped is the taken buffer as it is, what is written is the mapping result as it is: neither value is edited in
+    # place between the calls (statement-level: `&mut` uses do not show in value terms)
+    sites_seen, verbatim, take_sites = set(), bool(shaped), set()
+    del H.WHY[:]
+    for e in shaped:
+        if site(e) in sites_seen:
+            continue
+        sites_seen.add(site(e))
+        o = H.origins(prog, e.call.fn, e.call.args[1]) if len(e.call.args) > 1 else None
+        good = bool(o) and all(c.is_('std::ops::Fn::call', 'std::ops::FnMut::call_mut', 'std::ops::FnOnce::call_once') and len(c.args) == 2 for c in o)
+        for c in (o if good else ()):
+            o2 = H.origins(prog, c.fn, c.args[1])
+            good = good and bool(o2) and all(c2.is_('std::mem::take') for c2 in o2)
+            take_sites.update((c2.fn.path, c2.bb) for c2 in (o2 or ()))
+        verbatim = verbatim and good
+        take_sites.update(x[3] for x in walk(strip(e.args[1])) if x[0] == 'call' and x[1] == 'std::mem::take' and len(x) == 4 and x[3])
+    edited = sorted({y[8:] for y in H.WHY if y.startswith('edited: ')})
+    if verbatim:
+        rep.holds('R5', 'mapped-verbatim', w(flw), 'mapping_fn gets the taken buffer unmodified, the inner writer gets the mapping result unmodified')
+    elif edited:
+        rep.violated('R5', 'mapped-verbatim', w(flw), 'between mem::take(buffer), mapping_fn and write_all a value is edited in place (%s): the bytes emitted are not the mapping of the segment' % '; '.join(edited)[:200])
+    else:
+        rep.unproven('R5', 'mapped-verbatim', w(flw), 'the data flow mem::take(buffer) -> mapping_fn -> write_all could not be followed statement by statement')
+
+    # frame: the pending bytes only change by the append in write and the take in the flush
+    okay_sites = set(take_sites)
+    if len(appends) == 1:
+        okay_sites.add((mw.path, appends[0].bb))
+    foreign = []
+    for f in sorted(module_fns, key=lambda f: f.path):
+        for kind, g, bb, c, idx in H.field_mutations(prog, f, 'buffer'):
+            if kind == 'call' and c is not None and idx == 0 and ((g.path, bb) in okay_sites or (c.name or '').rsplit('::', 1)[-1] in CAPACITY_ONLY):
+                continue
+            foreign.append('%s in %s' % ((c.name or 'indirect call').split('::')[-1] if c is not None else kind, f.path.split('::')[-1]))
+            rep.analysed(f)
+    if foreign:
+        rep.unproven('R5', 'buffer-frame', w(mw), 'the pending bytes are also changed by %s: what gets mapped is not the segment that was written' % ', '.join(sorted(set(foreign)))[:160])
+    else:
+        rep.holds('R5', 'buffer-frame', w(mw), 'the buffer field only changes by the append in write and the take in the flush')
